@@ -302,6 +302,7 @@ def run(ctx: Ctx):
     _ref_policy(ctx, sl)
     # ---- S9 'fixed' policy: the k-th window and whether it is kept == the documented rule, per option valuation -----
     _fixed_policy(ctx, sl)
+    _driver_passes_feature_length(ctx)
     plumbing(ctx, "S1")
     return dict(
         explanation=(
@@ -563,6 +564,43 @@ def _fixed_policy(ctx: Ctx, sl):
     col.floor("fixed_policy_terms", n_ob, 36)
 
 
+def _driver_passes_feature_length(ctx: Ctx):
+    """S10: for the 'ref' policy the slicer needs the length of the feature sequence (`other_lens`) to decide which windows
+    are valid; left out, it is inferred from the *last listed token's end*, which is -1 when that token has no boundaries and
+    is not the sequence length in general. The chunking worker has the features at hand, so its ref-policy call must pass
+    their length."""
+    from sa.defuse import ReachingDefs
+    col, pkg, res = ctx.col, ctx.pkg, ctx.res
+    work = pkg.func("command_line::_chunk_torch_spect_data_dir_do_work")
+    rd = ReachingDefs(work.node)
+    fwd = pkg.func("_feats::SliceSpectData.forward")
+    names = [p.name for p in fwd.params]  # self, input, in_lens, other_lens
+    calls = []
+    for c in own_calls(work.node):
+        if isinstance(c.func, ast.Name) and c.args:
+            ds = rd.derives(c.args[0])
+            loads = [u(x) for x in ds.calls() if call_name(x) == "torch.load"]
+            fds = list(rd.defs_of(c.func))
+            direct = isinstance(c.args[0], ast.Name)  # the tensor itself, not an expanded copy handed to a chunker
+            is_slicer = bool(fds) and all(d.kind == "assign" and isinstance(d.value, ast.Call) and call_name(d.value).endswith("SliceSpectData")
+                                          for d in fds)
+            if any("ref" in l for l in loads) and is_slicer and direct:
+                calls.append(c)
+    if len(calls) != 1:
+        raise AnalysisError(f"C10: expected one slicer call on the references in the chunk worker, found {len(calls)}")
+    c = calls[0]
+    other = c.args[2] if len(c.args) >= 3 else kwarg(c, names[3] if len(names) > 3 else "other_lens")
+    ok = False
+    if other is not None:
+        d = rd.derives(other)
+        txt = " ".join(u(x) for x in d.nodes()) + " " + u(other)
+        ok = any("feat" in l for l in [u(x) for x in d.calls() if call_name(x) == "torch.load"]) or "feats" in txt
+    col.ob("G1", "S10", "command_line.py::_chunk_torch_spect_data_dir_do_work::ref-policy-slicer-gets-the-feature-length", ok,
+           f"the worker calls `{u(c)}` for the 'ref' policy without the feature length: other_lens is then taken from the last "
+           f"token's end frame, so a transcript whose last token lacks boundaries yields no chunks at all, and windows between the "
+           f"last token's end and the true end of the features are wrongly judged invalid", "command_line.py", c.lineno)
+
+
 def pm_of(f):
     pm = getattr(f, "_pm", None)
     if pm is None:
@@ -576,6 +614,7 @@ def _mutants():
     F = "_feats.py"
     C = "command_line.py"
     return [
+        M("ref-policy-without-feature-length", "command_line.py", "slices, _ = slicer(refs, None, torch.tensor([feats.size(1)]))", "slices, _ = slicer(refs)", "ref-policy-slicer-gets-the-feature-length"),
         M("lobe-reaches-past-the-segments", "_feats.py", "offs = min((int(do_left) + int(do_right)) * lobe_size, NN)", "offs = (int(do_left) + int(do_right)) * lobe_size", "slice-stops-cannot-go-negative"),
         M("repaired:boundaries-relative-to-slice-start", "_feats.py", "chunked[..., 1:] += slices[..., 0].view(N, 1, 1).expand(N, R, 2)", "chunked[..., 1:] -= slices[..., 0].view(N, 1, 1).expand(N, R, 2)", "", twin=True),
         M("gather-after-indexing-away", F, ".gather(1, (in_lens - 1).clamp_min_(0).view(N, 1))", ".select(1, 0).gather(1, (in_lens - 1).clamp_min_(0).view(N, 1))",
